@@ -364,6 +364,11 @@ func (e *Engine) unwindBound(fn *ssa.Function) int {
 	if k, ok := e.unwindFor[fn.String()]; ok {
 		return k
 	}
+	// key canonicalisation / case folding models walk header names byte by byte ("X-Test-Case-Name",
+	// "Content-Encoding": 16 bytes); on the constant names of the code under test the loops fold away
+	if n := fn.Name(); (n == "vModelCanonicalKey" || n == "vModelToLower") && e.maxUnwind < 40 {
+		return 40
+	}
 	return e.maxUnwind
 }
 
